@@ -7,6 +7,7 @@ children: list of (behaviour, how-started) with behaviour in
     'X' block; on cancel raise E_i from the cleanup      'W' block; on cancel swallow it and return a value
     'G' sleep(a), spawn a grandchild ('R') into the same group, return
     'N' open a nested task group with one 'B' child and one 'R' child
+    'H' a shielded section sleep(b) (2 steps) first, then block until cancelled, re-raise
     'L' sleep(a) then start a late sibling AFTER the group may already be cancelled (start_soon inside try)
 how-started: 'soon' | 'task' (create_task -> TaskHandle) | 'start' (tg.start, started() after the first sleep)
 body: 'fall' (sleep(c), fall through) | 'raise' (sleep(c), raise E_body) | 'cancel' (sleep(c), tg.cancel_scope.cancel())
@@ -25,6 +26,21 @@ class E(Exception):
     pass
 
 
+class EF(E):
+    """an exception whose truth value is False (container-style exception with __len__)"""
+
+    def __len__(self):
+        return 0
+
+
+class EB(BaseException):
+    """a non-cancellation exception that is not an Exception subclass"""
+
+
+ERR = (E, EB)
+EXC = {"plain": E, "falsy": EF, "base": EB}
+
+
 def _leaves(eg):
     for x in eg.exceptions:
         if isinstance(x, BaseExceptionGroup):
@@ -33,7 +49,7 @@ def _leaves(eg):
             yield x
 
 
-def scn(sym, cov, props, children, body="fall", env=(), eager=False, T=1, J=2, ext="R"):
+def scn(sym, cov, props, children, body="fall", env=(), eager=False, T=1, J=2, ext="R", exc="plain", tg_shield=False):
     import anyio
     from anyio import TASK_STATUS_IGNORED, CancelScope, TaskHandle
 
@@ -69,7 +85,7 @@ def scn(sym, cov, props, children, body="fall", env=(), eager=False, T=1, J=2, e
             rec[key]["after_exit"] += 1
 
     def fail(key, msg):
-        e = E(msg)
+        e = EXC[exc](msg)
         raised.append(e)
         rec[key]["exc"] = e
         if state["first_failure"] is None:
@@ -100,6 +116,13 @@ def scn(sym, cov, props, children, body="fall", env=(), eager=False, T=1, J=2, e
                 r["outcome"] = "returned"
                 r["value"] = v[i]
                 return v[i]
+            if beh == "H":
+                # a shielded section first (e.g. a critical write), then ordinary blocking work
+                with CancelScope(shield=True):
+                    await anyio.sleep(b[i])
+                    step(key)
+                    await anyio.sleep(0)
+                    step(key)
             if beh == "N":
                 task_status.started(key)
                 async with anyio.create_task_group() as inner:
@@ -144,7 +167,7 @@ def scn(sym, cov, props, children, body="fall", env=(), eager=False, T=1, J=2, e
         except asyncio.CancelledError:
             r["outcome"] = "cancelled"
             raise
-        except E:
+        except ERR:
             r["outcome"] = "raised"
             raise
         finally:
@@ -197,6 +220,8 @@ def scn(sym, cov, props, children, body="fall", env=(), eager=False, T=1, J=2, e
                 try:
                     async with anyio.create_task_group() as tg:
                         tgref["tg"] = tg
+                        if tg_shield:
+                            tg.cancel_scope.shield = True
                         for i, (beh, how) in enumerate(children):
                             key = "c%d" % i
                             if how == "soon":
@@ -206,13 +231,13 @@ def scn(sym, cov, props, children, body="fall", env=(), eager=False, T=1, J=2, e
                             else:
                                 try:
                                     out["start_%s" % key] = await tg.start(child, key, beh, i, tg)
-                                except E as e:
+                                except ERR as e:
                                     out.setdefault("surfaced_by_start", []).append(e)
                                 except RuntimeError:
                                     out["start_rt_%s" % key] = True
                         await anyio.sleep(c)
                         if body == "raise":
-                            e = E("body")
+                            e = EXC[exc]("body")
                             raised.append(e)
                             if state["first_failure"] is None:
                                 state["first_failure"] = (loop.cycles, "body")
@@ -227,7 +252,7 @@ def scn(sym, cov, props, children, body="fall", env=(), eager=False, T=1, J=2, e
                                 await anyio.sleep(c)
                                 state["spawn_cycle"] = loop.cycles
                                 state["spawn_cancelled"] = tg.cancel_scope.cancel_called or outer.cancel_called
-                                tg.start_soon(child, "sp", "B", 0, tg)
+                                handles["sp"] = tg.create_task(child("sp", "B", 0, tg))
                                 await anyio.sleep(T + 1)
                                 state["shield_end_cycle"] = loop.cycles
                                 state["shield_end_tick"] = loop.time()
@@ -250,6 +275,8 @@ def scn(sym, cov, props, children, body="fall", env=(), eager=False, T=1, J=2, e
             out["outer_caught"] = outer.cancelled_caught
         except BaseExceptionGroup as eg:
             out["group"] = list(_leaves(eg))
+        except ERR as e:
+            out["bare"] = e
         except asyncio.CancelledError:
             out["cancelled_out"] = True
             for _ in range(state.get("native_host", 0)):
@@ -306,6 +333,8 @@ def scn(sym, cov, props, children, body="fall", env=(), eager=False, T=1, J=2, e
             bad("C02", "raised-exception-not-surfaced", str(e))
         if cnt > 1:
             bad("C02", "raised-exception-surfaced-twice", str(e))
+    if "bare" in out:
+        bad("C02", "exception-left-the-block-outside-an-exception-group", repr(out["bare"]))
     for s in surfaced:
         if isinstance(s, asyncio.CancelledError):
             if not native:
@@ -331,12 +360,12 @@ def scn(sym, cov, props, children, body="fall", env=(), eager=False, T=1, J=2, e
             if r["outcome"] is None:
                 bad("C02", "sibling-not-cancelled-after-failure", k)
     # ---- C03: a task newly created inside an already cancelled scope is interrupted promptly -----------------
-    if body == "shielded-spawn" and "sp" in rec:
+    if body == "shielded-spawn" and "spawn_cycle" in state:
         cancelled_by = [cy for (k, cy) in state["fired"] if k in ("group", "outer")]
         cancel_ticks = [tk for (k, tk) in state.get("fired_ticks", []) if k in ("group", "outer")]
         if cancelled_by and cancel_ticks[0] < state.get("shield_end_tick", 0):
             # the scope was cancelled well before the host left its shielded section
-            r = rec["sp"]
+            r = rec.get("sp", {})  # a task that never took a step was not interrupted at a checkpoint either
             ref = max(cancelled_by[0], r.get("first_step_cycle", 0))
             ref_tick = max(cancel_ticks[0], r.get("first_step_tick", 0))
             # within a few loop cycles AND without the loop going idle (no virtual time may pass: the delivery
